@@ -421,7 +421,15 @@ fn run_sequence(lab: &mut Lab, base: &Base, seq: &[Step], stats: Option<&Stats>,
             }
         }
         let _ = &cls_owner;
-        let sig = |clause: &str| format!("c26|op={}|name={class}|clause={clause}|status={}", step.req.op, resp.status);
+        // operation family (add-mapped/add-file/add-memory -> add, clear-all -> clear, ...) and status class
+        let family = ["admin-add", "add", "clear", "convert"].iter().find(|f| step.req.op.starts_with(&format!("{f}-"))).map(|f| f.to_string()).unwrap_or_else(|| step.req.op.clone());
+        let status_class = match resp.status {
+            200..=299 => "2xx".to_string(),
+            500..=598 => "5xx".to_string(),
+            599 => "panic".to_string(),
+            s => s.to_string(),
+        };
+        let sig = |clause: &str| format!("c26|op={family}|name={class}|clause={clause}|status={status_class}");
         let ctx = format!("request {} (db name {:?}) answered {} {}", step.req.short(), cls_name, resp.status, engine::normalise(&resp.text()));
 
         // (a) escape
